@@ -491,7 +491,7 @@ func (sc *fkScenario) buildOps() {
 		}, explore.Op{
 			Name: fmt.Sprintf("deleteWidget(%s)", w),
 			Do: func(ctx boltz.MutateContext) error {
-				if sc.w == fkSelfCascade && sc.cycleCrash {
+				if (sc.w == fkSelfCascade || sc.w == fkSelfIdxCascade) && sc.cycleCrash {
 					if cyc, err := sc.implInCycle(ctx.Tx(), w); err != nil {
 						return err
 					} else if cyc {
@@ -746,15 +746,21 @@ func C04(tier string) int {
 		}
 		runE1(rep, sc, explore.Config{Programs: progs, SkipRejectedPrefix: true})
 	}
+	// a cascade that recurses without bound over a reference cycle would kill this process (a stack overflow is fatal
+	// in Go): it is probed in a child process first, and the cycle deletes of both self-referential cascade wirings
+	// are then reported instead of executed
+	cycleCrash := probeCycleCrashes()
+	rep.Set("cascade_cycle_recursion_observed_in_child_process", cycleCrash)
+	selfCascade := newFkScenario(fkSelfCascade, nil, []string{"w1", "w1x", "w3"}, "plain ids")
+	selfCascade.cycleCrash = cycleCrash
+	run(selfCascade)
+	selfIdxCascade := newFkScenario(fkSelfIdxCascade, nil, []string{"w1", "w1x", "w3"}, "plain ids")
+	selfIdxCascade.cycleCrash = cycleCrash
+	run(selfIdxCascade)
 	run(newFkScenario(fkSelfIdxNullable, nil, []string{"w1", "w1x", "w3"}, "plain ids"))
 	run(newFkScenario(fkSelfNone, nil, []string{"w1", "w1x", "w3"}, "plain ids"))
-	run(newFkScenario(fkSelfIdxCascade, nil, []string{"w1", "w1x", "w3"}, "plain ids"))
 	run(newFkScenario(fkChildTarget, nil, []string{"w1", "w1x", "w3"}, "plain ids"))
 	run(newFkScenario(fkIdxExtChildTarget, nil, []string{"w1", "w1x", "w3"}, "plain ids"))
-	selfCascade := newFkScenario(fkSelfCascade, nil, []string{"w1", "w1x", "w3"}, "plain ids")
-	selfCascade.cycleCrash = probeCycleCrashes()
-	rep.Set("cascade_cycle_recursion_observed_in_child_process", selfCascade.cycleCrash)
-	run(selfCascade)
 
 	// hostile target ids: every id string must behave like any other id
 	hostWirings := []fkWiring{fkIdxCascade, fkcNoneNullable, fkcCascadeNullable}
